@@ -50,15 +50,15 @@ QUICK_MENUS = {'eol': ['\n', '\r\n'], 'cmt': ['none', 'all'], 'trail': [False, T
 # ------------------------------------------------------------------ documents
 ENUM = {'name': 'COLORS', 'labels': ['RED', 'GREEN_X', 'B']}
 STRUCTS = {
-    'A': {'name': 'AB', 'cols': [['ival', 'int'], ['fval', 'float'], ['name', 'char[8]']]},
+    'A': {'name': 'AB', 'cols': [['ival', 'int'], ['fval', 'float'], ['name', 'char[8]'], ['zed', 'double']]},
     'B': {'name': 'ABC', 'cols': [['dval', 'double'], ['tag', 'char[]'], ['arr', 'int[2]']]},
     'C': {'name': 'flux', 'cols': [['lval', 'long'], ['sval', 'short'], ['farr', 'float[2]'], ['larr', 'long[2]']]},
     'D': {'name': 'MyStruct', 'cols': [['names', 'char[2][4]'], ['free', 'char[2][]'], ['color', 'COLORS']]},
     'E': {'name': 'T', 'cols': [['flux', 'float'], ['label', 'char[6]'], ['one', 'long[1]']]},
 }
 ROWS = {   # two row sets per struct
-    'A': [[[2147483647, 0.5, 'a b']],
-          [[-1, float('nan'), ''], [0, 0.1, '#x'], [-2147483648, -0.0, "it's"]]],
+    'A': [[[2147483647, 0.5, 'a b', -0.0]],                       # zed: a column holding only zeros, one of them negative
+          [[-1, float('nan'), '', 0.0], [0, 0.1, '#x', -0.0], [-2147483648, -0.0, "it's", 0.0]]],
     'B': [[[1.0 / 3.0, 'a;b', [1, -2]]],
           [[float('-inf'), '', [0, 2147483647]], [5e-324, ' lead', [-2147483648, 7]], [1.5, 'x\\y', [3, 4]]]],
     'C': [[[9223372036854775807, -32768, [0.5, float('inf')], [2 ** 53 + 1, -9223372036854775808]]],
@@ -70,7 +70,7 @@ ROWS = {   # two row sets per struct
           [[3.4028234663852886e+38, 'trail ', [-9223372036854775808]], [-1.5, 'a\tb', [2 ** 53 + 1]]]],
 }
 COMBOS = [['A'], ['B'], ['C'], ['D'], ['E'], ['A', 'B'], ['B', 'A'], ['C', 'E'], ['E', 'C'], ['A', 'D'], ['D', 'C']]
-PAIRS = [[], [['mjd', '54579']], [['alpha', 'beta gamma  delta'], ['semi', 'a;b c'], ['Empty', '']],
+PAIRS = [[], [['mjd', '54579'], ['enum', 'not a typedef'], ['struct', 'a b;c']], [['alpha', 'beta gamma  delta'], ['semi', 'a;b c'], ['Empty', '']],
          [['x', '1.5'], ['path', '/a/b_c.par']]]
 
 
